@@ -98,7 +98,46 @@ def write_impl_cfg():
 KEY = {"C02": "c02", "C03": "c03", "C24": "c24"}
 
 
+def run_budget(pid, tier, seed):
+    """C07: every budget 1..N+2 at every place it can be configured, on every enumerated budget case."""
+    v = Verdict(pid, tier, seed, "model_checking")
+    tmp = tempfile.mkdtemp(prefix="vbud-")
+    try:
+        res = tlc_must_pass(run_tlc("Exchange", "ExchangeCases.tla", "ExchCasesBudget.cfg" if tier == "quick" else "ExchCasesBudget5.cfg",
+                                    workers=1, timeout=3000), "budget cases")
+        cases = [json.loads(x) for x in res.printed()]
+        rng = random.Random(seed)
+        extra = []
+        for c in random_cases(seed + 99, 200 if tier == "quick" else 3000, 10):
+            c.update({"userSkip": 0, "ignore": [], "keyed": False, "budget": rng.randint(1, c["n"] + 2),
+                      "where": rng.choice(["reqG", "reqH", "reqGH", "reqHG", "respG", "respH", "respGH", "respHG"])})
+            extra.append(c)
+        cases += extra
+        obsfile = run_cases(cases, tmp, "budget")
+        verdicts, ores = oracle(obsfile, "OracleBudget.cfg")
+        if len(verdicts) != len(cases):
+            raise Infra("oracle judged %d of %d cases" % (len(verdicts), len(cases)))
+        lines = open(obsfile).read().splitlines()
+        for x in verdicts:
+            if not x["c07"]:
+                rec = json.loads(lines[x["id"] - 1])
+                c, o = rec["case"], rec["obs"]
+                side = "req" if c["where"].startswith("req") else "resp"
+                kind = "hang" if o["hang"] else ("budget=1" if c["budget"] == 1 else "budget>1")
+                v.violation("%s:%s" % (side, kind), "budget %d (%s) on case %s: observation %s" % (c["budget"], c["where"], json.dumps(c), json.dumps(o)[:400]), rec)
+        cov = {"states": res.distinct + ores.distinct, "transitions": res.distinct + ores.distinct, "traces_validated_against_impl": len(cases),
+               "samples": [json.loads(lines[len(lines) // 2])], "exhaustive": True,
+               "cases_enumerated_by_tlc": len(cases) - len(extra), "cases_random": len(extra),
+               "rule": "every link tree with <= %d visits (plain depths) x requestor store {empty, full, full minus one} x responder store {full, full minus one} x budget 1..N+2 "
+                       "x 8 placements (requestor/responder, global option / per-request hook / both with either smaller); judged by ExchangeOracle.tla C07OK" % (4 if tier == "quick" else 5)}
+        return v.finish(cov, ["TLC", "a missing block still uses up one unit of go-ipld-prime's link budget: runs are accepted under either reading of 'blocks needed' (link visits / blocks loaded)"])
+    finally:
+        shutil.rmtree(tmp, ignore_errors=True)
+
+
 def run(pid, tier, seed):
+    if pid == "C07":
+        return run_budget(pid, tier, seed)
     v = Verdict(pid, tier, seed, "model_checking")
     tmp = tempfile.mkdtemp(prefix="vexch-")
     try:
